@@ -1051,11 +1051,17 @@ impl<'l> CelCompiler<'l> {
                         // Arguments are evaluated backwards so they get popped off the stack in order
                         for (a, ast) in args.into_iter().rev() {
                             args_ast.push(ast);
-                            args_node =
-                                args_node.append_result(CompiledProg::with_code_points(vec![
-                                    ByteCode::Push(a.into_unresolved_bytecode().resolve().into())
-                                        .into(),
-                                ]))
+                            // the argument travels as a nested code block; the identifiers it
+                            // reads are still parameters of the program
+                            let (arg_node, arg_details) = a.into_parts();
+                            args_node = args_node.append_result(CompiledProg::new(
+                                NodeValue::Bytecode(
+                                    [ByteCode::Push(arg_node.into_bytecode().resolve().into())]
+                                        .into_iter()
+                                        .collect(),
+                                ),
+                                arg_details,
+                            ))
                         }
 
                         member_prime_node = args_node
@@ -1355,6 +1361,7 @@ impl<'l> CelCompiler<'l> {
                 loc,
             }) => {
                 let mut bytecode = Vec::<PreResolvedCodePoint>::new();
+                let mut details = crate::program::ProgramDetails::new();
 
                 for segment in segments.iter() {
                     match segment {
@@ -1369,6 +1376,7 @@ impl<'l> CelCompiler<'l> {
 
                             let (e, _) = comp.parse_expression()?;
                             self.operators = comp.operators;
+                            details.union_from(e.details().clone());
 
                             bytecode.push(
                                 ByteCode::Push(CelValue::ByteCode(
@@ -1386,7 +1394,7 @@ impl<'l> CelCompiler<'l> {
                 bytecode.push(ByteCode::FmtString(segments.len() as u32).into());
 
                 Ok((
-                    CompiledProg::with_code_points(bytecode),
+                    CompiledProg::new(NodeValue::Bytecode(bytecode.into_iter().collect()), details),
                     AstNode::new(
                         Primary::Literal(LiteralsAndKeywords::FStringList(segments.clone())),
                         loc,
@@ -1485,7 +1493,8 @@ impl<'l> CelCompiler<'l> {
     fn check_for_const(&self, member_prime_node: CompiledProg) -> CompiledProg {
         let mut i = Interpreter::empty();
         i.add_bindings(&self.bindings);
-        let bc = member_prime_node.into_unresolved_bytecode().resolve();
+        let (node, details) = member_prime_node.into_parts();
+        let bc = node.into_bytecode().resolve();
         self.bindings.take_non_const();
         let r = i.run_raw(&bc, true);
         // a result that depended on a name without a compile-time meaning (a variable, a
@@ -1499,8 +1508,8 @@ impl<'l> CelCompiler<'l> {
 
 
         match r {
-            Ok(v) if !non_const => CompiledProg::with_const(v),
-            _ => CompiledProg::with_bytecode(bc),
+            Ok(v) if !non_const => CompiledProg::new(NodeValue::ConstExpr(v), details),
+            _ => CompiledProg::new(NodeValue::Bytecode(bc.into()), details),
         }
     }
 }
